@@ -20,81 +20,81 @@ Q = lambda q, t: (q, t)
 
 PROPS = {
     "C01": {
-        "groups": {"e2e_usart": Q(6000, 150000), "e2e_serial": Q(6000, 150000), "e2e_can": Q(6000, 150000)},
+        "groups": {"e2e_usart": Q(24000, 150000), "e2e_serial": Q(24000, 150000), "e2e_can": Q(24000, 150000)},
         "rule": "generated runs of two real Protocol nodes joined by a recorded wire (events of all 16 kinds, addresses incl. broadcast and the sender's own, 0-4 handlers with random capture flags, 'no data yet' inserted by a seeded schedule: between any two bytes on USART, between link frames on the serial port, between frames on CAN); distinct by input text; non-trivial = at least two events sent and at least one handler registered",
         "explanation": "theorems end_to_end_{usart,can,serial} (model = specification for every event list, address pair, handler table and schedule) + differential runs of the real sender/receiver/protocol stack against the model; a differing line is a concrete C01 violation because the model's answer is the specified handler log",
     },
     "C02": {
-        "groups": {"frag_rt": Q(9000, 180000)},
+        "groups": {"frag_rt": Q(36000, 180000)},
         "rule": "packets (payload by seeded PRNG; every length 0..=70, the 7k-1/7k/7k+1 boundaries around 8, 1792 and 28672, random lengths up to 28672; both flags, boundary addresses) x the three frame paths (direct, real CAN codec, real USART codec); distinct by input text; non-trivial = multi-frame packet (payload > 8 bytes)",
         "explanation": "theorem reassembly_exact gives the closed form of frames_left/build after every prefix; the driver compares the real PacketBuilder's observations after every frame with it (digest) and the final packet with the input",
     },
     "C03": {
-        "groups": {"ev_rt": Q(60000, 2000000), "ev_enc": Q(20000, 300000)},
+        "groups": {"ev_rt": Q(240000, 2000000), "ev_enc": Q(80000, 300000)},
         "rule": "generated events of all 16 kinds (boundary-biased scalars, every variant of every value type, data payloads up to 300 bytes with matching and non-matching declared length); distinct by input text; non-trivial = kind with at least one field (everything but configurator hello)",
         "explanation": "theorem decode_encode (all kinds, values, padding) + real to_packet -> try_from_packet on generated events; oracle evaluated on the implementation's own answer: decoded value equals the event, packet is a data packet addressed to the receiver",
     },
     "C04": {
-        "groups": {"usart_dec": Q(80000, 3000000), "can_dec": Q(40000, 1000000)},
+        "groups": {"usart_dec_enum": Q(65793, 16843009), "can_dec_enum": Q(73728, 589824), "usart_dec": Q(320000, 3000000), "can_dec": Q(160000, 1000000)},
         "rule": "USART bodies: uniform bytes at every length 0..=255, short random bodies, declared data length 9..=250 with consistent size, COBS corner cases (ff chains, truncated runs, embedded zeros), single-fault mutations of valid encodings; CAN frames: standard/extended, data/remote, every dlc, field-wise ids; distinct by input text; non-trivial = input of at least 2 bytes",
         "explanation": "theorems fromUsart_no_panic / fromUsart_wf (all byte strings) and fromCan_no_panic / fromCan_wf (all constructible CAN frames) + the real decoders on malformed and valid streams; oracle on the implementation's answer: no panic, accepted frames are well-formed and survive real re-encoding for both links and real reassembly",
     },
     "C05": {
-        "groups": {"ev_dec": Q(120000, 3000000)},
+        "groups": {"ev_dec": Q(480000, 3000000)},
         "rule": "systematic sweep (every variant tag byte 0..=255 and flag-byte class at the layout positions; every length 0..=70 x both flags x near-miss codes for all 16 decoders: 26k cases) then mutated valid encodings of all kinds shown to their own or a random decoder; distinct by input text; non-trivial = payload of at least 2 bytes",
         "explanation": "theorems decode_no_panic, decode_ok_head, decode_err_applies, decode_reencode + all 16 real decoders; oracle on the implementation's answer: no panic, value in the kind's domain (raw-byte check for message values), reason validated by the Lean predicate cappliesB, accepted values re-encode and decode to themselves",
     },
     "C06": {
-        "groups": {"rx_usart": Q(20000, 600000), "rx_serial": Q(20000, 600000), "rx_can": Q(20000, 600000)},
+        "groups": {"rx_usart": Q(80000, 600000), "rx_serial": Q(80000, 600000), "rx_can": Q(80000, 600000)},
         "rule": "hostile receive histories per link: arbitrary bodies, interrupted packets of the same/other device and opposite error type, zero-length frames, line noise, swapped/duplicated/corrupted frames (incl. the length byte), declared length > 8, 200..255-byte bodies, foreign CAN frames, then two probe packets; would-blocks between bytes/frames; distinct by input text; non-trivial = at least 3 polls returned something other than 'nothing'",
         "explanation": "theorems run_resync, usart_resync, can_resync, serial_resync + the real receivers drained call by call; compared: every poll result and the number of device items left after every call; oracle on the implementation's answer: no panic, no spin, second probe delivered last, nothing delivered that the model does not deliver",
     },
     "C07": {
-        "groups": {"builder": Q(60000, 2000000)},
+        "groups": {"builder_enum": Q(28850, 692402), "builder": Q(240000, 2000000)},
         "rule": "start frame (announcing 1, 2..4, up to 300 or 4096 frames; sometimes not a start frame) followed by up to 8 frames generated relative to the reference builder state: the exact next frame and single-attribute mutations (type, device, start flag, multi flag, id kind, id-1, id+1, id = announced) and unrelated frames; distinct by input text; non-trivial = at least 2 frames after the first",
         "explanation": "theorems addFrame_ok_iff, addFrame_err_applies, framesLeft_spec, build_spec, offer_inv + the real PacketBuilder observed after every step (accept/reject, expected_frame_count, frame_count, frames_left, build twice); reasons validated by the Lean predicate appliesB, everything else compared",
     },
     "C08": {
-        "groups": {"can_enc": Q(40000, 1500000), "can_dec": Q(40000, 1500000), "can_rt": Q(40000, 1500000)},
+        "groups": {"can_dec_enum": Q(73728, 589824), "can_enc": Q(160000, 1500000), "can_dec": Q(160000, 1500000), "can_rt": Q(160000, 1500000)},
         "rule": "frames: 8 flag combinations x both id kinds x ids (boundaries, single bits, uniform) x addresses x dataLen 0..=8 (+ ill-formed frames, judged as outside the property); CAN frames as in C04 plus encodings of canonical frames; distinct by input text; non-trivial = identifier/frame with at least one non-zero field",
         "explanation": "theorems toCan_layout, id_fields, fromCan_toCan, specFrames_canCanonical + real to_bxcan_frame / from_bxcan_frame / their composition; a differing line on a well-formed frame or constructible CAN frame is a concrete C08 violation (model = layout)",
     },
     "C09": {
-        "groups": {"usart_enc": Q(40000, 1500000), "usart_rt": Q(40000, 1500000), "usart_dec": Q(40000, 1000000)},
+        "groups": {"usart_dec_enum": Q(65793, 65793), "usart_enc": Q(160000, 1500000), "usart_rt": Q(160000, 1500000), "usart_dec": Q(160000, 1000000)},
         "rule": "frames as in C08; USART bodies as in C04 (valid encodings and their single-fault mutations make up half of the stream); distinct by input text; non-trivial = frame with at least one data byte, or body of at least 5 bytes",
         "explanation": "theorems toUsart_layout, toUsart_transparent, fromUsart_toUsart, decodeBody_encode + real to_usart_frame / from_usart_frame (through the real cobs crate); encode side and round trip: a differing line on a well-formed frame is a concrete C09 violation",
     },
     "C10": {
-        "groups": {"to_frames": Q(6000, 120000)},
+        "groups": {"to_frames": Q(24000, 120000)},
         "rule": "packets as in C02; frames compared one by one (digest beyond 4 frames) with the chunk-based specification; distinct by input text; non-trivial = multi-frame packet",
         "explanation": "theorem toFrames_eq_spec (model of to_frames = independent chunking fragmenter for every payload up to 28672 bytes) + real to_frames; a differing line is a concrete C10 violation",
     },
     "C11": {
-        "groups": {"ev_enc": Q(60000, 2000000), "ev_dec": Q(60000, 1500000)},
+        "groups": {"ev_enc": Q(240000, 2000000), "ev_dec": Q(240000, 1500000)},
         "rule": "events as in C03 (encode side, padding bytes masked); decoder packets as in C05, of which the ones the reference decoder accepts are compared by value; distinct by input text; non-trivial = kind with at least one field",
         "explanation": "theorems encode_eq_layout, refDecode_agrees, refDecode_encode + real to_packet vs the field-table layout and real try_from_packet vs the reference decoder",
     },
     "C12": {
-        "groups": {"ev_cross": Q(60000, 2000000)},
+        "groups": {"ev_cross": Q(240000, 2000000)},
         "rule": "valid encodings of all kinds, with mutated bytes / event codes / flags / random payloads, shown to all 16 real decoders; distinct by input text; non-trivial = payload of at least 2 bytes",
         "explanation": "theorems decode_unique, cross_reject + acceptance mask of the 16 real decoders compared with the model's; oracle on the implementation's answer: at most one bit set",
     },
     "C13": {
-        "groups": {"loop_usart": Q(5000, 120000), "loop_serial": Q(5000, 120000), "loop_can": Q(5000, 120000)},
+        "groups": {"loop_usart": Q(20000, 120000), "loop_serial": Q(20000, 120000), "loop_can": Q(20000, 120000)},
         "rule": "1..5 packets (single/multi-frame, both flags, boundary addresses, once per 50 cases up to the 4096-frame limit) sent through the real sender into a recording device, replayed into the real receiver with 'no data yet' inserted by a seeded schedule; distinct by input text; non-trivial = at least 2 packets or a multi-frame packet",
         "explanation": "theorems can_transparent, usart_transparent, serial_transparent (every packet list, every schedule) + real send -> real receive; compared: wire digest, every poll result, device items left after every call; oracle on the implementation's answer: emissions are exactly the packets sent",
     },
     "C14": {
-        "groups": {"tx_usart": Q(8000, 200000), "tx_can": Q(8000, 200000), "tx_serial": Q(8000, 200000)},
+        "groups": {"tx_usart": Q(32000, 200000), "tx_can": Q(32000, 200000), "tx_serial": Q(32000, 200000)},
         "rule": "packets of 0..2000 bytes and the limits x device response scripts (USART would-block bursts; CAN would-block and displaced-frame reports; serial port short writes of 1..6 bytes, all-one-byte writes, zero writes, interrupted, I/O errors, flush failure); distinct by input text; non-trivial = multi-frame packet or a non-empty response script",
         "explanation": "theorems usartSend_exact, canSend_exact, serialSend_exact, writeAll_spec + real try_send_packet against scripted devices; device log (digest), flush count and result compared; a differing line is a concrete C14 violation (model = wire image)",
     },
-    "C15": {"groups": {"proto": Q(40000, 1500000)}, "rule": None, "explanation": "theorems dispatch_spec, tick_spec (+ reach_sorted for the handler table) + the real Protocol over a scripted Interface"},
-    "C16": {"groups": {"proto": Q(40000, 1500000)}, "rule": None, "explanation": "theorem sendPacket_spec + the real Protocol over a scripted Interface"},
-    "C17": {"groups": {"proto": Q(40000, 1500000)}, "rule": None, "explanation": "theorems nextId_fresh, add_spec, remove_spec, reach_sorted, removed_never_called + the real Protocol over a scripted Interface"},
-    "C18": {"groups": {"proto": Q(40000, 1500000)}, "rule": None, "explanation": "theorems exchangeLoop_first/timeout/error, exchangeAllLoop_spec, exchange_prefix + the real exchange_packet / exchange_packets instantiated for all 16 event types"},
+    "C15": {"groups": {"proto": Q(160000, 1500000)}, "rule": None, "explanation": "theorems dispatch_spec, tick_spec (+ reach_sorted for the handler table) + the real Protocol over a scripted Interface"},
+    "C16": {"groups": {"proto": Q(160000, 1500000)}, "rule": None, "explanation": "theorem sendPacket_spec + the real Protocol over a scripted Interface"},
+    "C17": {"groups": {"proto": Q(160000, 1500000)}, "rule": None, "explanation": "theorems nextId_fresh, add_spec, remove_spec, reach_sorted, removed_never_called + the real Protocol over a scripted Interface"},
+    "C18": {"groups": {"proto": Q(160000, 1500000)}, "rule": None, "explanation": "theorems exchangeLoop_first/timeout/error, exchangeAllLoop_spec, exchange_prefix + the real exchange_packet / exchange_packets instantiated for all 16 event types"},
     "C19": {
-        "groups": {"rxh_usart": Q(15000, 400000), "rxh_serial": Q(15000, 400000), "rxh_can": Q(15000, 400000)},
+        "groups": {"rxh_usart": Q(60000, 400000), "rxh_serial": Q(60000, 400000), "rxh_can": Q(60000, 400000)},
         "rule": "the hostile histories of C06, with a counting global allocator read after every poll; distinct by input text; non-trivial = at least 3 polls returned something other than 'nothing'",
         "explanation": "PARTIAL: theorems rxStep_inv, run_inv, usartStep_phase bound the model's bookkeeping (frames held <= frames announced <= 4096, body buffer <= 255, nothing held after delivery/error); the allocator itself is measured: live bytes after each poll <= base + 1024 + 64 * frames announced (model state), = base when the model holds nothing, peak inside a poll bounded likewise",
         "assumptions": ["heap behaviour is measured at run time, not proved: allocator, Vec growth policy and temporaries are outside the model"],
@@ -105,9 +105,16 @@ for k in ("C15", "C16", "C17", "C18"):
     PROPS[k]["rule"] = _proto_rule
 
 
+ENUM_SCOPES = {
+    "usart_dec_enum": "every byte string of length 0..=2 (65793; thorough: 0..=3, 16843009) as a USART body",
+    "can_dec_enum": "every combination of 3 flag bits x 6 reserved identifier bits x id nibble x dlc 0..=8 (73728; thorough: x 8 address classes, 589824) as an extended CAN data frame",
+    "builder_enum": "every sequence of at most 3 (thorough: 4) frames over a 24-frame alphabet (exact next frames, every single-attribute deviation, ids 0..4/255..258/4095, lengths 0/1/3/8) after a start frame announcing 3 resp. 258 frames (28850; thorough 692402)",
+}
+
+
 def nontrivial(group, inp, obs):
     t = inp.split(" ")
-    g = group
+    g = group[:-5] if group.endswith("_enum") else group
     if g == "corpus":
         return True
     if g in ("usart_dec",):
